@@ -224,6 +224,54 @@ def check_traversal(ast, src, chosen_sets, case, st):
             cls().visit(ast)
             if log != expected(kind):
                 fail("traversal", case, src, "visitor hierarchy A<-B<-C, instance of %s: visit_X interceptions differ from the methods its class defines/inherits (got %d calls, expected %d; first got %r, first expected %r)" % (cls.__name__, len(log), len(expected(kind)), log[:2], expected(kind)[:2]), "visitor-hierarchy")
+    # handlers supplied other than through the class body: attached to the
+    # instance, or served by __getattr__ - "a visit_X method intercepts exactly the
+    # nodes of class X" whichever way the visitor object provides it
+    if chosen_sets:
+        s1 = chosen_sets[0]
+        s2 = chosen_sets[-1]
+
+        class Plain(c_ast.NodeVisitor):
+            pass
+
+        def attach(vis, names, log):
+            for nm in names:
+                def h(node, nm=nm):
+                    log.append((nm, type(node).__name__))
+                    c_ast.NodeVisitor.generic_visit(vis, node)
+
+                setattr(vis, "visit_" + nm, h)
+
+        for names in (s1, s2, s1):
+            log = []
+            vis = Plain()
+            attach(vis, names, log)
+            vis.visit(ast)
+            want = [(type(x).__name__, type(x).__name__) for x in acc if type(x).__name__ in names]
+            if log != want:
+                fail("traversal", case, src, "visit_X handlers attached to the visitor INSTANCE intercepted %d nodes, expected %d (two instances of one class with different handlers)" % (len(log), len(want)), "instance-handlers")
+
+        class Dyn(c_ast.NodeVisitor):
+            def __init__(self, names):
+                self.names = names
+                self.log = []
+
+            def __getattr__(self, attr):
+                if attr.startswith("visit_") and attr[6:] in self.names:
+                    nm = attr[6:]
+
+                    def h(node):
+                        self.log.append((nm, type(node).__name__))
+                        c_ast.NodeVisitor.generic_visit(self, node)
+
+                    return h
+                raise AttributeError(attr)
+
+        dv = Dyn(s2)
+        dv.visit(ast)
+        want = [(type(x).__name__, type(x).__name__) for x in acc if type(x).__name__ in s2]
+        if dv.log != want:
+            fail("traversal", case, src, "visit_X handlers served by __getattr__ intercepted %d nodes, expected %d" % (len(dv.log), len(want)), "dynamic-handlers")
     if not has_node_valued_attr(ast):
         for flags in ({}, {"attrnames": True, "nodenames": True, "showcoord": True}, {"showemptyattrs": False}, {"nodenames": True, "offset": 3}):
             buf = io.StringIO()
